@@ -103,8 +103,13 @@ def make_data(cfg):
     if cfg["dist"] == "table":
         return absstate.make_data(cfg["n"], kind="flat", grid=3)
     # unequal cluster sizes: data points carry different outlier priors, as clustered input gives
-    return absstate.make_data(cfg["n"], dims=cfg.get("dims", 1), grid=5, seed=cfg.get("dseed", 0), kind="int",
+    data = absstate.make_data(cfg["n"], dims=cfg.get("dims", 1), grid=5, seed=cfg.get("dseed", 0), kind="int",
                               outlier_prob=(0.2 if cfg["outl"] else 0.0), sizes=[(1, 3, 2)[i % 3] for i in range(cfg["n"])], offset=cfg.get("offset", 0.0))
+    if cfg.get("zero_prior"):
+        from phyclone.data.base import DataPoint
+        d0 = data[0]
+        data[0] = DataPoint(d0.idx, d0.value, name=d0.name, outlier_prob=0, outlier_prob_not=0.0)     # no outlier prior on the first point
+    return data
 
 
 def make_sampler(cfg, td, rng, which="tree"):
@@ -136,7 +141,7 @@ def cfg_label(cfg):
     return "wiring=%s|kernel=%s|outl=%d|n=%d|np=%d|thr=%s|dist=%s" % (
         cfg["wiring"], cfg["kernel"], cfg["outl"], cfg["n"], cfg["np"], cfg["thr"],
         cfg["dist"] + ("" if cfg["dist"] == "table" else ":a=%s" % cfg["alpha"]) + ("" if cfg.get("alpha_pre") is None else ":after_a=%s" % cfg["alpha_pre"])
-        + ("" if not cfg.get("offset") else ":heavy=%s" % cfg["offset"]))
+        + ("" if not cfg.get("offset") else ":heavy=%s" % cfg["offset"]) + ("" if not cfg.get("zero_prior") else ":point0_without_outlier_prior"))
 
 
 def run_configs(ck, configs, table, which="tree", prop="C01", corrupt=None, sigfn=None, structural_only=False):
